@@ -15,6 +15,30 @@ from harness import common as C  # noqa: E402
 from harness import dfgen as G  # noqa: E402
 
 PROP = "C03"
+# Clause-by-clause coverage of the property text: clause -> oracle key(s) that judge it <- generator kind(s) that exercise it.
+# Keys are prefixed direct:<stype>: (compute_col_stats called on the series) or stats:<stype>[:target]: (dataset.col_stats).
+CLAUSES = [
+    "mean / population std / five quantiles over the non-missing finite values, numerical and sequence columns -> "
+    "*:mean, *:std, *:quantiles, *:keys <- numerical/{usable,single} x {dyadic,int,const,skew,ties,coarse} x inf/NaN rates "
+    "x float64 / int64 dtype; sequence_numerical/{usable,single} with NaN and inf inside sequences",
+    "every distinct value with its exact count, non-increasing, categorical and multicategorical -> *:dup, *:extra, "
+    "*:count, *:missing, *:order, *:shape <- categorical / multicategorical usable x {tie,skew,uniform,random} "
+    "frequencies, cells empty / missing / with duplicated tokens, str and object dtype, sep string / list cells",
+    "timestamps: year range, oldest, newest, upper median -> *:year_range, *:oldest_time, *:newest_time, *:median_time "
+    "<- timestamp/{usable,single}, unsorted, tied, unparseable and missing entries, even / odd counts, seven formats",
+    "embeddings: the vector width -> *:emb_dim <- embedding widths 1-6, text_embedded / image_embedded stubs "
+    "(EMB_DIM written by _update_col_stats); text_tokenized columns get no statistics -> stats:text_tokenized:keys",
+    "a column with no usable value gets the neutral defaults instead of an error -> *:default, *:raises, "
+    "materialize-raises:* <- kinds allmissing / onlyinf / allempty / allnan / allgarbage",
+    "two-class categorical target listed in sorted order -> stats:categorical:target:target-order <- binary targets "
+    "whose frequency order differs from the sorted order; multi-class and numerical targets",
+    "the i-th listed category is the one encoded as index i -> index-space:<stype> <- every category column and row",
+    "statistics are those of the frame that is materialized, however the Dataset object was used before -> all keys "
+    "above on histories retry / colselect; Coq history_ok",
+    "constructor and call forms do not matter -> all keys above, frame-columns, stats-columns, cache-stats <- split "
+    "column kinds, sep / time-format / embedder / tokenizer configuration as dict, partial dict, plain value; "
+    "compute_col_stats positional / keyword / defaulted; materialize(device, path) forms",
+]
 HEADER = "Require Import Coq.QArith.QArith PF.Lib.QStats PF.Model.Stats.\nOpen Scope Z_scope."
 MODEL_TARGETS = ["Model/Stats.vo"]
 SHARD = 60
@@ -104,6 +128,8 @@ def gen_num_col(rng, name, n, for_target=False, shared=None):
         cells = [rng.pick([None, "inf", "-inf", "inf"]) for _ in range(n)]
     col["cells"] = cells
     col["gen"] = shape
+    if all(isinstance(c, float) and c == int(c) for c in cells) and rng.chance(0.6):
+        col["np_dtype"] = "int64"               # an integer-valued column without missing cells held as int64
     return col
 
 
@@ -284,7 +310,7 @@ def gen_time_col(rng, name, n, shared=None):
 
 
 def gen_emb_col(rng, name, n, shared=None):
-    st = rng.wpick([(4, "embedding"), (1, "text_embedded"), (1, "image_embedded")])
+    st = rng.wpick([(4, "embedding"), (1, "text_embedded"), (1, "image_embedded"), (1, "text_tokenized")])
     col = base_col(name, st)
     if st == "embedding":
         w = rng.randint(1, 6)
@@ -358,8 +384,11 @@ def gen_ctor(rng, case):
     if fmts:
         forms = ["dict"] + (["plain"] * 2 if len(set(fmts)) == 1 else []) + (["partial"] * 2 if None in fmts else [])
         ctor["fmt_form"] = rng.pick(forms)
-    if any(c["stype"] in ("text_embedded", "image_embedded") for c in case["cols"]):
+    if any(c["stype"] in ("text_embedded", "image_embedded", "text_tokenized") for c in case["cols"]):
         ctor["cfg_form"] = rng.pick(["dict", "plain"])
+    ctor["direct_form"] = rng.pick(["keyword", "positional", "defaulted"])
+    ctor["device"] = rng.pick(["default", "default", "pos_none", "kw_str", "kw_device"])
+    ctor["path"] = rng.chance(0.12)
     return ctor
 
 
@@ -391,14 +420,21 @@ def build_ds(desc, df, ctor):
           for n in col_to_stype if by[n]["stype"] == "text_embedded"}
     ie = {n: ImageEmbedderConfig(image_embedder=G.StubImageEmbedder(2), batch_size=by[n].get("batch_size"))
           for n in col_to_stype if by[n]["stype"] == "image_embedded"}
+    from torch_frame.config.text_tokenizer import TextTokenizerConfig
+    tt = {n: TextTokenizerConfig(text_tokenizer=G.StubTokenizer("list"), batch_size=by[n].get("batch_size"))
+          for n in col_to_stype if by[n]["stype"] == "text_tokenized"}
     te = form(te, ctor.get("cfg_form"))
     ie = form(ie, ctor.get("cfg_form"))
+    tt = form(tt, ctor.get("cfg_form"))
+    for n in col_to_stype:
+        if by[n].get("np_dtype") and df[n].dtype == float and not df[n].isna().any():
+            df[n] = df[n].astype(by[n]["np_dtype"])
     kw = {}
     if ctor.get("split") is not None:
         df[SPLIT] = list(ctor["split"])
         kw["split_col"] = SPLIT
     return Dataset(df, col_to_stype, target_col=desc["target"], col_to_sep=sep, col_to_time_format=fmt,
-                   col_to_text_embedder_cfg=te, col_to_image_embedder_cfg=ie, **kw)
+                   col_to_text_embedder_cfg=te, col_to_image_embedder_cfg=ie, col_to_text_tokenizer_cfg=tt, **kw)
 
 
 def gen_history(rng, case):
@@ -526,16 +562,51 @@ def run(case):
     for c in d["cols"]:
         try:
             fmt = None if c["fmt"] in (None, "datetime64") else c["fmt"]
-            st = compute_col_stats(ds.df[c["name"]], getattr(torch_frame, c["stype"]), sep=c["sep"], time_format=fmt)
+            ser, sty = ds.df[c["name"]], getattr(torch_frame, c["stype"])
+            dform = (case.get("ctor") or {}).get("direct_form", "keyword")
+            if dform == "positional":
+                st = compute_col_stats(ser, sty, c["sep"], fmt)
+            elif dform == "defaulted" and c["sep"] is None and fmt is None:
+                st = compute_col_stats(ser, sty)
+            else:
+                st = compute_col_stats(ser=ser, stype=sty, sep=c["sep"], time_format=fmt)
             direct[c["name"]] = G.read_stats({c["name"]: st})[c["name"]]
         except Exception as ex:
             direct[c["name"]] = {"exc": C.exc_name(ex), "msg": str(ex)[:200]}
     out["direct"] = direct
+    import shutil
+    import tempfile
+    import torch
+    ct = case.get("ctor") or {}
+    tmp = tempfile.mkdtemp(prefix="c03_") if ct.get("path") else None
+    kw = {"path": os.path.join(tmp, "cache.pt")} if tmp else {}
     try:
-        ds.materialize()
-    except Exception as ex:
-        out.update(stage="materialize", exc=C.exc_name(ex), msg=str(ex)[:300], tb=C.fmt_exc())
-        return out
+        try:
+            dev = ct.get("device", "default")
+            if dev == "pos_none":
+                ds.materialize(None, **kw)
+            elif dev == "kw_str":
+                ds.materialize(device="cpu", **kw)
+            elif dev == "kw_device":
+                ds.materialize(device=torch.device("cpu"), **kw)
+            else:
+                ds.materialize(**kw)
+        except Exception as ex:
+            out.update(stage="materialize", exc=C.exc_name(ex), msg=str(ex)[:300], tb=C.fmt_exc())
+            return out
+        if tmp:
+            # a fresh dataset over the same frame that finds the cache file: its statistics come from the file
+            try:
+                df2 = ds.df.copy()
+                ct2 = dict(ct, split=df2.pop(SPLIT).tolist() if SPLIT in df2 else None)
+                ds2 = build_ds(d, df2, ct2)
+                ds2.materialize(path=kw["path"])
+                out["cached_stats"] = G.read_stats(ds2.col_stats)
+            except Exception as ex:
+                out["cached_stats"] = {"exc": C.exc_name(ex), "msg": str(ex)[:200]}
+    finally:
+        if tmp:
+            shutil.rmtree(tmp, ignore_errors=True)
     out.update(ok=True, stats=G.read_stats(ds.col_stats), tf=G.read_tf(ds.tensor_frame))
     emb = ds.tensor_frame.feat_dict.get(torch_frame.embedding)
     if emb is not None:
@@ -751,6 +822,8 @@ def _oracle(case, obs):
         st = obs["stats"][col["name"]]
         is_t = col["name"] == case["target"]
         f = check_col_stats(case, col, st, is_t)
+        if f is None and col["stype"] == "text_tokenized" and st != {}:
+            f = ("keys", f"a text_tokenized column has no statistics, found {sorted(st)}", [], sorted(st))
         if f is None and col["stype"] in ("embedding", "text_embedded", "image_embedded"):
             if st != {"EMB_DIM": emb_width(col)}:
                 f = ("emb_dim", f"EMB_DIM statistics {st}, vectors have width {emb_width(col)}", emb_width(col), st)
@@ -758,6 +831,9 @@ def _oracle(case, obs):
             return dict(key=f"stats:{col['stype']}{':target' if is_t else ''}:{f[0]}",
                         what=f"col_stats of column {col['name']} ({col['stype']}, {col.get('gen')}): {f[1]}",
                         expected=f[2], observed=f[3], col=col["name"])
+        if "cached_stats" in obs and obs["cached_stats"].get(col["name"]) != st:
+            return dict(key="cache-stats", what=f"a dataset materialized from the cache file of this one reports other "
+                        f"statistics for column {col['name']}", expected=st, observed=obs["cached_stats"].get(col["name"]))
         # 3. index space: the i-th listed category is the one encoded as i in the TensorFrame
         if col["stype"] in ("categorical", "multicategorical"):
             cells = tf_column(case, obs, col)
@@ -867,6 +943,10 @@ def stats(cases, obss):
         d["split"][sk] = d["split"].get(sk, 0) + 1
         if sk != "none" and any(x["stype"] in ("numerical", "sequence_numerical") for x in c["cols"]):
             d["split_with_numeric_columns"] += 1
+        for k in ("direct_form", "device", "path"):
+            d.setdefault("call_" + k, {})
+            d["call_" + k][str(ct.get(k))] = d["call_" + k].get(str(ct.get(k)), 0) + 1
+        d["int64_numerical_columns"] = d.get("int64_numerical_columns", 0) + sum(1 for x in c["cols"] if x.get("np_dtype"))
         for k in ("sep_form", "fmt_form", "cfg_form"):
             kk = k + ":" + str(ct.get(k, "dict"))
             d["ctor_forms"][kk] = d["ctor_forms"].get(kk, 0) + 1
@@ -940,6 +1020,15 @@ def sanity(cases, obss):
     for k in ("sep_form:plain", "sep_form:partial", "fmt_form:plain", "fmt_form:partial", "cfg_form:plain"):
         if d["ctor_forms"].get(k, 0) == 0:
             probs.append(f"constructor argument form {k} never drawn")
+    for grp, ks in {"call_direct_form": ["keyword", "positional", "defaulted"],
+                    "call_device": ["default", "pos_none", "kw_str", "kw_device"], "call_path": ["True", "False"]}.items():
+        for k in ks:
+            if (d.get(grp) or {}).get(k, 0) == 0:
+                probs.append(f"{grp} = {k} never drawn")
+    if d.get("int64_numerical_columns", 0) == 0:
+        probs.append("no int64 numerical column")
+    if d["columns"].get("text_tokenized", 0) == 0:
+        probs.append("stype text_tokenized never drawn")
     for k in ("retry", "colselect"):
         if d["histories"][k] == 0:
             probs.append(f"history kind {k} never drawn")
@@ -1090,6 +1179,10 @@ def coq_term(case, obs):
     case = final_desc(case)
     terms = []
     for col in case["cols"]:
+        if col["stype"] == "text_tokenized":
+            if obs["stats"][col["name"]] != {}:
+                return "false"
+            continue
         r = coq_col(case, obs, col, terms)
         if r is None:
             return "false"
@@ -1104,4 +1197,4 @@ def coq_term(case, obs):
                 return "false"
             terms.append(f"update_col_stats_ok {C.clist(obs.get('emb_offset', []), C.cnat)} "
                          f"{C.clist(widths, C.cnat)} {C.clist(dims, C.cz)}")
-    return "(" + " && ".join(terms) + ")"
+    return "(" + " && ".join(terms or ["true"]) + ")"
